@@ -375,6 +375,9 @@ Proof.
   simpl in *. subst. destruct sb; [exact I1|apply IH; exact I1].
 Qed.
 
+Lemma ce_key_slot n a b : core_eq a b -> core_eq (key_slot n a) (key_slot n b).
+Proof. intro H. unfold key_slot. destruct (loopKey n); [exact H|]. rewrite (ce_lenBB a b H). apply ce_w_lenBB. exact H. Qed.
+
 Lemma rloop_core n a b : core_eq a b -> core_eq (rloop fr n a) (rloop fr n b).
 Proof.
   intro H. unfold rloop. destruct (split_path (loopSrc n)) as [|k rest]; [exact H|].
@@ -384,10 +387,11 @@ Proof.
   - destruct v; try exact H1.
     destruct (jget j rest); try exact H1; try (apply ce_w_cerr; exact H1);
       match goal with |- context [match ?l with [] => _ | _ :: _ => _ end] => destruct l end;
-      try (apply ce_w_cerr; exact H1); apply vloop_core; exact H1.
+      try (apply ce_w_cerr; exact H1); apply ce_key_slot, vloop_core; exact H1.
   - destruct v; try exact H1. rewrite <- (ce_store _ _ H1).
     destruct (nth_error (store (w_cerr a None)) oid); try exact H1.
-    destruct (oloop ofuel o (prefix ++ rest)) as [[sp cnt]|]; [apply oloop_run_core; exact H1|exact H1].
+    destruct (oloop ofuel o (prefix ++ rest)) as [[sp cnt]|]; [|exact H1].
+    destruct cnt; [apply oloop_run_core; exact H1|apply ce_key_slot, oloop_run_core; exact H1].
   - apply ce_w_cerr. exact H1.
 Qed.
 
